@@ -5,6 +5,7 @@ package main
 import (
 	"github.com/newrelic/newrelic-php-agent/daemon/internal/newrelic"
 	"github.com/newrelic/newrelic-php-agent/daemon/internal/newrelic/collector"
+	"github.com/newrelic/newrelic-php-agent/daemon/internal/newrelic/infinite_tracing"
 )
 
 func lookup(engine string) func([]string) string {
@@ -12,6 +13,9 @@ func lookup(engine string) func([]string) string {
 		return f
 	}
 	if f, ok := collector.VerifEngines[engine]; ok {
+		return f
+	}
+	if f, ok := infinite_tracing.VerifEngines[engine]; ok {
 		return f
 	}
 	return nil
